@@ -1087,6 +1087,18 @@ func (c *checker) sessions(v *variant, kc *keyCfg) []session {
 		// the other submission's own honest SCT (under the key that owns it)
 		oh := &hcase{label: "honest (other submission)", benign: true,
 			sc: script{then: ok200(sctBody(okc.id(), c0, honestDS(okc.k, hSHA256, sctInput(c0, other.entry))).String())}}
+		if v.sub == w.subPre && !v.temporal {
+			// the same precertificate under another issuer certificate: whatever the client remembers about
+			// the leaf it submitted before, the entry (issuer_key_hash) is the one of THIS chain
+			sl := w.subPreSameLeaf
+			slH := &hcase{label: "honest (same precertificate, other issuer)", benign: true,
+				sc: script{then: ok200(sctBody(kc.id(), c0, honestDS(kc.k, hSHA256, sctInput(c0, sl.entry))).String())}}
+			slReplay := &hcase{label: "honest SCT of the previous submission replayed for the same precertificate under another issuer", sc: script{then: ok200(honest)}}
+			out = append(out,
+				session{label: "session[honest A, A's SCT for the same leaf under issuer B, honest B, B's SCT for A]", steps: []sstep{{hc: H}, {hc: slReplay, sub: sl, kc: kc}, {hc: slH, sub: sl, kc: kc},
+					{hc: &hcase{label: "honest SCT of the same precertificate under the other issuer replayed", sc: slH.sc}}}},
+				session{label: "session[honest B, honest A, B's SCT for A]", steps: []sstep{{hc: slH, sub: sl, kc: kc}, {hc: H}, {hc: &hcase{label: "honest SCT of the same precertificate under the other issuer replayed", sc: slH.sc}}}})
+		}
 		out = append(out,
 			session{label: "session[honest A, A's SCT for B, honest B, B's SCT for A]", steps: []sstep{{hc: H}, {hc: replay, sub: other, kc: okc}, {hc: oh, sub: other, kc: okc},
 				{hc: &hcase{label: "honest SCT of the other submission replayed", sc: oh.sc}}}},
